@@ -291,6 +291,44 @@ func checkAccountedFormula(P *core.Program, R *core.Report) {
 			stored = true
 			if p, okR := ff.PolyOf(st.Val).Rename(role); okR && p.Equal(want) {
 				ok2 = true
+				// the recorded part is used whenever the denom matches — it is legitimately
+				// negative (custody above liabilities) and must not be dropped by a sign test
+				raw := ff.PolyOf(st.Val)
+				for k, lv := range raw.Leaf {
+					if r, _ := role(k, lv); r != "NONAMM" || lv == nil {
+						continue
+					}
+					for _, vc := range ff.CasesOf(lv, in, 3) {
+						isRec := false
+						for _, o := range ff.Origins(vc.Val) {
+							if strings.Contains(o.Path, "NonAmmPoolTokens") || (o.Kind == "call" && strings.HasSuffix(o.Name, "GetNonAmmTokenBalance")) {
+								isRec = true
+							}
+						}
+						if !isRec {
+							continue
+						}
+						for _, a := range vc.Facts {
+							for _, side := range []ssa.Value{a.A, a.B} {
+								if side == nil || side == core.ZeroMarker || side == core.NilMarker {
+									continue
+								}
+								other := a.B
+								if side == a.B {
+									other = a.A
+								}
+								if other != core.ZeroMarker {
+									continue
+								}
+								for _, o := range ff.Origins(side) {
+									if strings.Contains(o.Path, "NonAmmPoolTokens") && strings.HasSuffix(o.Path, ".Amount") {
+										ok2 = false
+									}
+								}
+							}
+						}
+					}
+				}
 			} else if os.Getenv("ELYSLINT_POLY_DEBUG") != "" {
 				fmt.Fprintf(os.Stderr, "c11 ammchange: %s => %s ok=%v\n", ff.PolyOf(st.Val), p, okR)
 			}
